@@ -491,9 +491,10 @@ static void czt_case(int id, uint64_t seed, int maxn, bool corr, Res& R) {
     case 2: th = (id % 12 == 2) ? 3.141592653589793 : 0.0; break;   // w = -1 (negative real axis), w = 1
     default: th = 3.141592653589793 * rng.sym(); break;
     }
+    if (id == 64) th = 3.141592653589793;
     const cmplx_t w{std::cos(th), std::sin(th)};
     cmplx_t a{1, 0};
-    const int am = id % 5;
+    const int am = id == 64 ? 0 : id % 5;
     if (am == 1 || am == 2 || am == 3) {
         const double r = am == 1 ? 0.5 + 1.5 * rng.unit() : am == 2 ? (rng.coin() ? 0.5 : 2.0) : 1.0;
         const double ph = 3.141592653589793 * rng.sym();
@@ -505,6 +506,11 @@ static void czt_case(int id, uint64_t seed, int maxn, bool corr, Res& R) {
         const Input in = make_input(cls, n, rng);
         x = in.x;
         if (id % 13 == 5) { for (auto& v : x) v = {0, 0}; x[rng.range(0, n - 1)] = {1, 0}; }   // impulse
+    }
+    if (id == 64) {   // fixed case: long chirp phase (w = -1), all weight on the last sample; exact result [1, -1]
+        n = 56; m = 2;
+        x.assign(n, C{0, 0});
+        x[n - 1] = {1, 0};
     }
     const arr_cmplx ax = to_arr(x);
     const std::string js = "{\"entry\":\"czt\",\"n\":" + std::to_string(n) + ",\"m\":" + std::to_string(m) + ",\"w\":[" + vh::jnum(w.re) + "," + vh::jnum(w.im) +
